@@ -393,9 +393,15 @@ Live1(m) == {cid \in DOMAIN m.c1 : cid \notin m.spends}
 Rev1(c, d, dw) == [c EXCEPT !.rn = @ + 1, !.ws = @ + dw, !.we = @ + dw,
                      !.vo = <<Out(c.vo[1].val - d, c.vo[1].addr), Out(c.vo[2].val + d, c.vo[2].addr)>>,
                      !.mo = <<Out(c.mo[1].val - d, c.mo[1].addr), Out(c.mo[2].val + d, c.mo[2].addr), c.mo[3]>>]
+\* the largest revision number ("final revision" by convention): TLC's largest integer stands for 2^64-1 (the harness maps
+\* MaxRN and MaxRN-1 to 2^64-1 and 2^64-2); nothing can follow it
+MaxRN == 2147483647
 T_Rev1(m) == IF "rev1" \notin Templates \/ 1 \notin Vers THEN {} ELSE
   {[EmptyTx(1) EXCEPT !.rev = <<[cid |-> q[1], c |-> Rev1(m.c1[q[1]], q[2], q[3]), auth |-> "ok"]>>, !.tag = "rev1", !.slack = m.c1[q[1]].ws - child] :
-     q \in {y \in Live1(m) \X RevShifts \X {0, 2} : y[2] <= m.c1[y[1]].vo[1].val}}
+     q \in {y \in Live1(m) \X RevShifts \X {0, 2} : y[2] <= m.c1[y[1]].vo[1].val /\ m.c1[y[1]].rn < MaxRN - 1}}
+  \cup (IF "finalrn" \notin Defects THEN {} ELSE
+        {[EmptyTx(1) EXCEPT !.rev = <<[cid |-> q[1], c |-> [Rev1(m.c1[q[1]], q[2], 0) EXCEPT !.rn = MaxRN], auth |-> "ok"]>>, !.tag = "rev1final", !.slack = m.c1[q[1]].ws - child] :
+           q \in {y \in Live1(m) \X RevShifts : y[2] <= m.c1[y[1]].vo[1].val /\ m.c1[y[1]].rn < MaxRN - 1}})
 T_Prove1(m) == IF "prove1" \notin Templates \/ 1 \notin Vers THEN {} ELSE
   {[EmptyTx(1) EXCEPT !.res = <<[cid |-> cid, kind |-> "proof", pf |-> "ok", ren |-> NoRen]>>, !.tag = "prove1", !.slack = child - m.c1[cid].ws] :
      cid \in {x \in Live1(m) : m.c1[x].ws <= child}}
@@ -517,7 +523,7 @@ BadCand(m) ==
                                \cup {[EmptyTx(2) EXCEPT !.res = <<[cid |-> q[1], kind |-> q[2], pf |-> "ok", ren |-> NoRen]>>, !.tag = q[2]] :
                                   q \in Live2(m) \X {"proof", "expire"}} ELSE {})
            \cup (IF 1 \in Vers THEN {[EmptyTx(1) EXCEPT !.rev = <<[cid |-> q[1], c |-> Rev1(m.c1[q[1]], q[2], 0), auth |-> "ok"]>>, !.tag = "rev1"] :
-                                  q \in {y \in Live1(m) \X RevShifts : y[2] <= m.c1[y[1]].vo[1].val}}
+                                  q \in {y \in Live1(m) \X RevShifts : y[2] <= m.c1[y[1]].vo[1].val /\ m.c1[y[1]].rn < MaxRN - 1}}
                                \cup {[EmptyTx(1) EXCEPT !.res = <<[cid |-> cid, kind |-> "proof", pf |-> "ok", ren |-> NoRen]>>, !.tag = "prove1"] :
                                   cid \in Live1(m)} ELSE {})} ELSE {})
 \* an input whose parent id is the id of an element of ANOTHER kind touched earlier in the same block (the code keeps one
@@ -544,6 +550,10 @@ BadCand(m) ==
 \cup (IF "timing" \in Defects /\ 1 \in Vers /\ m.nv2 = 0 THEN
         {[SFTx(m, 1, q[1], q[2], q[3]) EXCEPT !.sfi[1].auth = "dev", !.tag = "sfdev!timing", !.slack = IF DevH > DevLock THEN DevH - child ELSE DevLock - child] :
             q \in {y \in LiveSF(m) \X SFSplits \X Addrs : m.sf[y[1]].addr = "D"}} ELSE {})
+\* after the final revision every further revision has a revision number that is not higher
+\cup (IF "finalrn" \in Defects /\ 1 \in Vers /\ m.nv2 = 0 THEN
+        {[EmptyTx(1) EXCEPT !.rev = <<[cid |-> q[1], c |-> [m.c1[q[1]] EXCEPT !.rn = q[2]], auth |-> "ok"]>>, !.tag = "rev1!stalern"] :
+            q \in {y \in Live1(m) \X {0, 1, MaxRN - 1, MaxRN} : m.c1[y[1]].rn = MaxRN}} ELSE {})
 \cup (IF "early" \in Defects /\ 2 \in Vers THEN
         {[EmptyTx(2) EXCEPT !.res = <<[cid |-> q[1], kind |-> q[2], pf |-> "ok", ren |-> NoRen]>>, !.tag = q[2] \o "!early"] :
             q \in Live2(m) \X {"proof", "expire"}} ELSE {})
